@@ -2,6 +2,7 @@ import FeatherModel.Base.Driver
 import FeatherModel.Model.RawLayout
 import FeatherModel.Gen.RawLayouts
 import FeatherModel.Spec.JvmsRaw
+import FeatherModel.Model.RawGolden
 
 /-! Driver of C20: answers `raw-*` and `oracle-*` request lines with the layout interpreter run on the translated
 layouts (`Gen.RawLayouts.env`, regenerated from `raw_class_file/src/lib.rs` before this file is built). -/
@@ -129,6 +130,10 @@ def handleC20 (op : String) (args : List Sexp) : Option Ans :=
     let v ← valFrom v
     if !typedV env root v then none else
     pure (jvmsOracle true v)
+  | "raw-golden", [] =>
+    pure (match writeV env root goldenClass with
+      | some b => .ok (.list [valTo goldenClass, ofBytes b])
+      | none => panicAns)
   | "raw-avoids", [v] => do
     let v ← valFrom v
     if !typedV env root v then none else
